@@ -37,6 +37,7 @@ type c06Case struct {
 	Replicas   int      `json:"replicas,omitempty"`
 	ReadRepair bool     `json:"read_repair,omitempty"`
 	Join       bool     `json:"join,omitempty"` // one more member joins without balancing: partitions get previous owners
+	Join2      bool     `json:"join2,omitempty"` // with Join: data is written and a second member joins, again without balancing
 	Keys       []c06Key `json:"keys,omitempty"`
 	// merge
 	Existing []c06Ent   `json:"existing,omitempty"`
@@ -55,6 +56,7 @@ func genC06Reads(t *rapid.T) *c06Case {
 	c.Replicas = rapid.IntRange(1, 3).Draw(t, "replicas")
 	c.ReadRepair = rapid.Bool().Draw(t, "rr")
 	c.Join = rapid.Bool().Draw(t, "join")
+	c.Join2 = c.Join && rapid.Bool().Draw(t, "join2")
 	n := rapid.IntRange(1, 8).Draw(t, "keys")
 	for i := 0; i < n; i++ {
 		k := c06Key{K: i, Reader: rapid.IntRange(0, 3).Draw(t, "reader")}
@@ -102,8 +104,49 @@ func runC06Reads(c *c06Case) (v *vcommon.Violation, nontrivial, inconclusive boo
 		if err := cl.waitSettled(15 * time.Second); err != nil {
 			return nil, false, true
 		}
+		if c.Join2 {
+			// data on the owners of the moment, then another join: some partitions now list two previous
+			// owners, and the more recent one holds data but possibly no copy of the key that is read
+			for i := 0; i < 80; i++ {
+				dm, err := cl.live()[0].emb.NewDMap(name)
+				if err != nil {
+					return nil, false, true
+				}
+				if err := dm.Put(ctx, fmt.Sprintf("ballast2-%d", i), []byte("b")); err != nil {
+					return nil, false, true
+				}
+			}
+			if _, err := cl.addMember(); err != nil {
+				return nil, false, true
+			}
+			if err := cl.waitSettled(15 * time.Second); err != nil {
+				return nil, false, true
+			}
+		}
 	}
 	ref := cl.live()[0]
+	if c.Join2 {
+		// every second key is taken from a partition with the longest owner list
+		deepest := 0
+		for p := uint64(0); p < uint64(opts.Partitions); p++ {
+			if n := ref.db.primary.PartitionByID(p).OwnerCount(); n > deepest {
+				deepest = n
+			}
+		}
+		plain := keyName
+		keyName = func(i int) string {
+			if i%2 == 1 {
+				return plain(i)
+			}
+			for j := 0; j < 400; j++ {
+				cand := fmt.Sprintf("key-%d-%d", i, j)
+				if len(ref.db.primary.PartitionOwnersByHKey(partitions.HKey(name, cand))) == deepest {
+					return cand
+				}
+			}
+			return plain(i)
+		}
+	}
 	for _, k := range c.Keys {
 		key := keyName(k.K)
 		hkey := partitions.HKey(name, key)
@@ -395,7 +438,7 @@ func c06Test(t *testing.T, kind string) {
 		}
 		var labels []string
 		if kind == "reads" {
-			labels = append(labels, fmt.Sprintf("replicas:%d", c.Replicas), fmt.Sprintf("rr:%v", c.ReadRepair), fmt.Sprintf("join:%v", c.Join))
+			labels = append(labels, fmt.Sprintf("replicas:%d", c.Replicas), fmt.Sprintf("rr:%v", c.ReadRepair), fmt.Sprintf("join:%v", c.Join), fmt.Sprintf("join2:%v", c.Join2))
 		}
 		col.Record(vcommon.MustJSON(c), nt, labels...)
 		if v != nil {
